@@ -11,6 +11,7 @@ from . import core
 from .core import cq_bool, cq_list, cq_nat
 
 THEOREMS = ["C21_dump_accepted", "C21_prefix_eof", "C21_crash", "C21_crash_point", "C21_reader_partial",
+            "C21_two_callers_partial", "C21_writer_two_readers_partial",
             "C21_fixed_routes", "C21_history_example", "C21_unrouted_refuted"]
 
 API = "/src/pymoca/backends/casadi/api.py"
@@ -226,6 +227,10 @@ def transfers_of(op, r):
         return [("", r)]
     if op[0] == "reader":
         return [("reader ", r["reader"]), ("writer ", r["writer"])]
+    if op[0] == "two":
+        return [("caller A ", r["A"]), ("caller B ", r["B"])]
+    if op[0] == "reader2":
+        return [("reader A ", r["A"]), ("reader B ", r["B"]), ("writer ", r["writer"])]
     return []
 
 
@@ -295,6 +300,14 @@ def encode(case, res):
             ops.append("Reader %s %s %s %s" % (cq_nat(op[1]), _eof(r["writer"]), _eof(r["reader"]),
                                                cq_nat(_steps(op[2], r["fired"]))))
             obs.append("[%s; %s]" % (OBS[r["reader"]["out"]], OBS[r["writer"]["out"]]))
+        elif op[0] == "two":
+            lastb = not (r["save_order"] and r["save_order"][-1] == "A")
+            ops.append("Two %s %s %s %s %s" % (cq_nat(op[1]), cq_nat(op[2]), _eof(r["A"]), _eof(r["B"]), cq_bool(lastb)))
+            obs.append("[%s; %s]" % (OBS[r["A"]["out"]], OBS[r["B"]["out"]]))
+        elif op[0] == "reader2":
+            ops.append("Reader2 %s %s %s %s %s" % (cq_nat(op[1]), _eof(r["writer"]), _eof(r["A"]), _eof(r["B"]),
+                                                   cq_nat(_steps(op[2], r["fired"]))))
+            obs.append("[%s; %s; %s]" % (OBS[r["A"]["out"]], OBS[r["B"]["out"]], OBS[r["writer"]["out"]]))
     return "(%s, %s)" % (cq_list(ops), cq_list(obs))
 
 
@@ -324,6 +337,16 @@ def boundary_offsets(info):
     return sorted(k for k in s if 0 <= k < n)
 
 
+def _interleavings(a, b):
+    if not a or not b:
+        return [a + b]
+    return [a[0] + x for x in _interleavings(a[1:], b)] + [b[0] + x for x in _interleavings(a, b[1:])]
+
+
+# both callers finish load_model first (either order), then handler / compile / save steps in any interleaving
+SCHEDULES = [st + x for st in ("AB", "BA") for x in _interleavings("AAA", "BBB")]
+LOCKSTEP = "ABABABAB"
+
 SPECIAL_J = [0, 1, 2, 3, 4, 10, 11, 12, 13, 100, 4097, 8193, 8194, 9000, 30000]
 
 
@@ -340,9 +363,13 @@ def random_history(rng, name):
             ops.append(["crash", o, j])
         elif x < 0.68:
             ops.append(["cut", rng.choice([0, 1, 2, 3, 10, 11, 12, -1, -2, -10, 8192]) if rng.random() < 0.5 else rng.randint(0, 9500)])
-        elif x < 0.80:
+        elif x < 0.76:
             ops.append(["reader", o, j])
-        elif x < 0.93:
+        elif x < 0.84:
+            ops.append(["two", o, rng.choice(used), rng.choice(SCHEDULES)])
+        elif x < 0.88:
+            ops.append(["reader2", o, j, rng.choice(SCHEDULES)])
+        elif x < 0.95:
             ops.append(["edit"])
         else:
             ops.append(["bump"])
@@ -351,20 +378,41 @@ def random_history(rng, name):
     return mk(name, ops)
 
 
-def fixed_histories():
+def fixed_histories(rng, thorough):
     out = []
-    for name in MODELS:
+    names = sorted(MODELS)
+    js = [0, 1, 2, 3, 12, 13, 5000] if thorough else [0, 1, 2, 13, 5000]
+    for mi, name in enumerate(names if thorough else names[:1]):
         # every write step around the open/truncate and the first/last bytes, then two transfers
-        for j in [0, 1, 2, 3, 12, 13, 5000]:
+        for j in js:
             out.append(mk(name, [["transfer", 0], ["edit"], ["crash", 0, j], ["transfer", 0], ["transfer", 0]]))
             out.append(mk(name, [["crash", 0, j], ["transfer", 0], ["transfer", 0]]))
             out.append(mk(name, [["transfer", 0], ["edit"], ["reader", 0, j], ["transfer", 0]]))
             out.append(mk(name, [["reader", 0, j], ["transfer", 0]]))
+    for mi, name in enumerate(names):
         # crash while switching option sets, then both option sets again
         out.append(mk(name, [["transfer", 0], ["crash", 1, 700], ["transfer", 0], ["transfer", 1], ["transfer", 1]]))
         # stale + truncated, version change + truncated
         out.append(mk(name, [["transfer", 0], ["cut", 100], ["edit"], ["transfer", 0], ["transfer", 0]]))
         out.append(mk(name, [["transfer", 0], ["bump"], ["cut", 0], ["transfer", 0], ["transfer", 0]]))
+        # two callers that both see the same unusable cache before either recovers
+        scheds = [LOCKSTEP] + (SCHEDULES if thorough else rng.sample(SCHEDULES, 3))
+        for i, sc in enumerate(scheds):
+            k = [4000, 0, 1, 11, -1][i % 5]
+            out.append(mk(name, [["transfer", 0], ["cut", k], ["two", 0, 0, sc], ["transfer", 0]]))
+        sc = rng.choice(SCHEDULES)
+        out.append(mk(name, [["crash", 0, 1], ["two", 0, 0, LOCKSTEP], ["transfer", 0]]))
+        out.append(mk(name, [["crash", 0, 5000], ["two", 0, 0, sc], ["transfer", 0]]))
+        out.append(mk(name, [["transfer", 0], ["edit"], ["two", 0, 0, LOCKSTEP], ["transfer", 0]]))      # stale
+        out.append(mk(name, [["transfer", 0], ["bump"], ["two", 0, 0, sc], ["transfer", 0]]))          # version
+        out.append(mk(name, [["two", 0, 0, LOCKSTEP], ["transfer", 0]]))                                # no file
+        out.append(mk(name, [["transfer", 0], ["cut", 3000], ["two", 0, 1, sc], ["transfer", 0], ["transfer", 1]]))
+        out.append(mk(name, [["transfer", 0], ["cut", 3000], ["two", 1, 0, LOCKSTEP], ["transfer", 1], ["transfer", 0]]))
+        out.append(mk(name, [["transfer", 0], ["two", 0, 1, sc], ["transfer", 1]]))                    # A loads, B recompiles
+        # a writer in the middle of its write and two readers
+        for j in ([1, 2, 3000] if thorough else [1, 3000]):
+            out.append(mk(name, [["transfer", 0], ["edit"], ["reader2", 0, j, LOCKSTEP], ["transfer", 0]]))
+        out.append(mk(name, [["reader2", 0, 2, sc], ["transfer", 0]]))
     return out
 
 
@@ -416,6 +464,17 @@ def minimise(ctx, case, idx):
     ops = case["ops"][:idx + 1]
     cands = []
     last = ops[-1]
+    if last[0] in ("two", "reader2"):
+        o = last[1]
+        cands.append([last])
+        for prev in reversed(ops[:-1]):
+            if prev[0] == "cut":
+                cands.append([["transfer", o], prev, last])
+                break
+            if prev[0] == "crash":
+                cands.append([prev, last])
+                break
+        cands.append([["transfer", o], ["edit"], last])
     if last[0] == "transfer":
         for prev in reversed(ops[:-1]):
             if prev[0] == "cut":
@@ -500,7 +559,7 @@ def run(ctx):
 
     # ---- H: histories on the real transfer_model ---------------------------------------------
     cases = []
-    n_spread = ctx.scaled(70, 500)
+    n_spread = ctx.scaled(25, 500)
     full_pair = ("Tiny", 0)
     for (n, o), s in info.items():
         if ctx.tier == "thorough" and (n, o) == full_pair:
@@ -510,9 +569,9 @@ def run(ctx):
         for i in range(0, len(offs), 25):
             cases.append(sweep_history(n, o, offs[i:i + 25]))
     n_sweep_cases = len(cases)
-    fixed = fixed_histories()
+    fixed = fixed_histories(ctx.rng, ctx.tier == "thorough")
     cases += fixed
-    n_rand = ctx.scaled(60, 600)
+    n_rand = ctx.scaled(36, 600)
     names = sorted(MODELS)
     for i in range(n_rand):
         cases.append(random_history(ctx.rng, names[i % len(names)]))
@@ -539,8 +598,10 @@ def run(ctx):
                         situ_bad.append("%s %s: pickle.load raised %s" % (c["name"], op, tr.get("pl")))
                 if op[0] == "cut" and rr.get("size") is not None and rr["k"] < rr["size"]:
                     nontrivial.add((c["name"], "cut", rr["k"], rr["size"]))
-                if op[0] in ("crash", "reader") and rr.get("fired"):
+                if op[0] in ("crash", "reader", "reader2") and rr.get("fired"):
                     nontrivial.add((c["name"], op[0], op[1], op[2]))
+                if op[0] in ("two", "reader2") and "Recompiled" in (rr["A"]["out"], rr["B"]["out"]):
+                    nontrivial.add((c["name"], op[0], op[1], op[2], op[3]))
         v = judge(c, r)
         if v:
             idx, tag, why = v
@@ -593,7 +654,7 @@ def run(ctx):
     ctx.cov["distinct_nontrivial"] = len(nontrivial)
     ctx.cov["rule"] = ("transfer_model calls judged against a fresh compile; histories = offset sweeps [transfer; (cut k; transfer)*] "
                        "(%d histories; %s), fixed crash/reader scenarios (%d), random histories of edit/bump/transfer/"
-                       "crash/cut/reader over %d models x %d option sets (%d); non-trivial = distinct (model, cut offset, "
+                       "crash/cut/reader/two-callers/writer+two-readers over %d models x %d option sets (%d); non-trivial = distinct (model, cut offset, "
                        "file size) with a real truncation or (model, op, options, write step) where the interrupted "
                        "write actually fired" % (n_sweep_cases,
                                                  "every byte offset of %s/%d + boundaries + %d random offsets of the others" % (full_pair + (n_spread,))
